@@ -804,7 +804,8 @@ class PartitionBulkIndexParamSource:
 
     @property
     def percent_completed(self):
-        return self.current_bulk / self.total_bulks
+        # there is nothing to do for the clients of this partition if the corpus contains fewer documents than there are clients
+        return self.current_bulk / self.total_bulks if self.total_bulks > 0 else 1.0
 
 
 class OpenPointInTimeParamSource(ParamSource):
